@@ -191,7 +191,7 @@ def AddRes.toRes : AddRes → Res
 
 /-- `Queue.Add` (shutdown check and insertion in one critical section, see the `fix:` commit):
 refuse after shutdown; push; enforce the size bound by removing the element in the **last slot**
-of the heap array; signal. -/
+of the heap array and closing its cancel channel; signal. -/
 def add (s : Sh) (due : Nat) (id : Option Nat) (kind : Kind) (tag : Nat) : Sh × AddRes :=
   if s.isShutdown then (s, if s.flags.panic then .panic else .nil)
   else
@@ -201,7 +201,9 @@ def add (s : Sh) (due : Nat) (id : Option Nat) (kind : Kind) (tag : Nat) : Sh ×
     let s1 : Sh := { s with next := s.next + 1 }
     if s.maxSize > 0 ∧ h1.length > s.maxSize then
       match Heap.removeAt h1 (h1.length - 1) with
-      | some (d, h2) => (signal { s1 with heap := h2, log := .dropSize d.serial :: log1 }, .ok s.next)
+      | some (d, h2) =>
+        -- the dropped element is marked as cancelled (its cancel channel is closed)
+        (signal { s1 with heap := h2, closed := d.serial :: s.closed, log := .dropSize d.serial :: log1 }, .ok s.next)
       | none => (signal { s1 with heap := h1, log := log1 }, .ok s.next)
     else (signal { s1 with heap := h1, log := log1 }, .ok s.next)
 
@@ -222,24 +224,27 @@ def exec2 (s : Sh) (i due : Nat) (kind : Kind) (tag : Nat) : Sh :=
   | (s', .ok x) => { s' with reg := regSet s'.reg i x, regLocked := false, lastRes := .ok x }
   | (s', r) => { s' with regLocked := false, lastRes := r.toRes }
 
-/-- `TaskExecutor.Cancel(id)`. -/
+/-- `TaskExecutor.Cancel(id)`: forget the registration; the result says whether the element was still
+pending, i.e. whether this call closed its cancel channel (false: cancelled or dropped before). -/
 def cancelId (s : Sh) (i : Nat) : Sh :=
   match regGet s.reg i with
   | none => { s with log := .cancelRes i false none :: s.log, lastRes := .bool false }
   | some x =>
     let s' := cancelElem s x
-    { s' with reg := regDel s'.reg i, log := .cancelRes i true (some x) :: s'.log, lastRes := .bool true }
+    { s' with reg := regDel s'.reg i, log := .cancelRes i (decide (x ∉ s.closed)) (some x) :: s'.log,
+              lastRes := .bool (decide (x ∉ s.closed)) }
 
 /-- `Queue.Shutdown`, the part under `shutdownMutex`.  `none`: it was shut down already. -/
 def sd1 (s : Sh) (f : Flags) : Option Sh :=
   if s.isShutdown then none
   else some { s with isShutdown := true, flags := s.flags.or f, log := .shutdown f.cancel f.ignore :: s.log }
 
-/-- `Queue.Shutdown`, the part under `heapMutex`: discard everything with `CancelPendingElements`,
-wake every waiting poller. -/
+/-- `Queue.Shutdown`, the part under `heapMutex`: discard everything with `CancelPendingElements`
+(closing the cancel channels of what is discarded), wake every waiting poller. -/
 def sd3 (s : Sh) : Sh :=
   if s.flags.cancel then
-    broadcast { s with heap := [], log := s.heap.map (fun e => Ev.dropSD e.serial) ++ s.log }
+    broadcast { s with heap := [], closed := s.heap.map (fun e => e.serial) ++ s.closed,
+                       log := s.heap.map (fun e => Ev.dropSD e.serial) ++ s.log }
   else broadcast s
 
 /-! ## threads -/
@@ -303,7 +308,8 @@ def workerStep (s : Sh) : Th → List (Sh × Th)
   | .hk e => if e.tag ∈ s.released then [(s, .sel e)] else []
   | .sel e =>
     (if s.ctxDone then
-      (if s.flags.cancel then [({ s with wg := s.wg - 1, log := .dropSD e.serial :: s.log }, .exited)]
+      (if s.flags.cancel then
+        [({ s with wg := s.wg - 1, closed := e.serial :: s.closed, log := .dropSD e.serial :: s.log }, .exited)]
        else if s.flags.ignore then [(s, .chk e)]
        else [(s, .selSD e)])
      else []) ++
